@@ -743,7 +743,40 @@ def run(F, R, tier):
         groups.setdefault((s.key_fn, s.what), []).append(s)
 
     used = set()
+    # a reviewed site that moved into a private helper extracted from the reviewed function: the helper has exactly one calling
+    # function, that function has a table entry for the same construct and now shows fewer sites than were reviewed there
+    def norm(p_):
+        return re.sub(r"\{closure#\d+\}", "{closure}", p_)
+
+    def base_fn(p_):
+        return re.sub(r"(::\{closure\})+$", "", norm(p_))
+    moved = {}
     for (fn, what), ss in sorted(groups.items()):
+        if (fn, what) in table:
+            continue
+        helper = base_fn(fn)
+        f_ = F.fns.get(helper)
+        if f_ is None or f_.get("exported"):
+            continue
+        callers = {base_fn(p_) for (p_, _, _) in F.callers(helper)} - {helper}
+        if len(callers) != 1:
+            continue
+        caller = callers.pop()
+        for (tfn, twhat), (n_, cls_, arg_, reason_) in table.items():
+            if twhat == what and base_fn(tfn) == caller and cls_ == "REVIEWED":
+                have = len(groups.get((tfn, twhat), []))
+                if have + len(ss) <= n_:
+                    moved[(fn, what)] = (tfn, reason_)
+    for (fn, what), ss in sorted(groups.items()):
+        if (fn, what) in moved:
+            tfn, reason_ = moved[(fn, what)]
+            for s_ in ss:
+                s_.cls = "REVIEWED"
+                counts["REVIEWED"] += 1
+                r1.site("%s: %s [REVIEWED, moved out of %s] %s" % (short(fn), what, short(tfn), reason_), s_.sp)
+            used.add((tfn, what))
+            r1.exception("%s | %s ×%d" % (fn, what, len(ss)), "reviewed", "moved with its code out of %s: %s" % (tfn, reason_))
+            continue
         ent = table.get((fn, what))
         spans = ", ".join(x.sp.split("/")[-1] for x in ss)
         if ent is None:
